@@ -24,6 +24,10 @@ RULE = (
     "value universes containing Python-equal values of different JSON type and None over collections. Non-trivial "
     "and distinct = distinct (mode, op sequence) with >= 2 successful mutating ops."
 )
+RULE += (
+    " " + 'Added later: whole resets whose new value is a live document object (this document, another one, or a sub-document of this one); handles naming the project directory in different ways; buffered blocks left by an exception or by KeyboardInterrupt; a new job created at a state point vacated by a re-key starts empty.'
+    " In every third case DEBUG logging is effective for the package."
+)
 ASSUMPTIONS = [
     "pop(missing) returns None (dependency convention); keys colliding with protected attribute names are not used "
     "through attribute syntax.",
